@@ -9,6 +9,7 @@ import (
 	"sort"
 	"strconv"
 	"strings"
+	"sync"
 	"sync/atomic"
 	"time"
 
@@ -279,6 +280,22 @@ func (c *Case) Margin() int64 {
 
 var uniq atomic.Uint64
 
+var usedMicros = struct {
+	sync.Mutex
+	m map[int64]bool
+}{m: map[int64]bool{}}
+
+func uniqueMicro(t time.Time) time.Time {
+	usedMicros.Lock()
+	defer usedMicros.Unlock()
+	us := t.UnixMicro()
+	for usedMicros.m[us] {
+		us++
+	}
+	usedMicros.m[us] = true
+	return time.UnixMicro(us).UTC()
+}
+
 // Addresses used in tickets and settings.
 var addrBytes = map[string][]byte{"A": {10, 1, 1, 1}, "B": {10, 2, 2, 2}, "C": {10, 3, 3, 3}}
 
@@ -375,7 +392,13 @@ func (c *Case) Mint(samplePAC []byte) (*Minted, error) {
 	if c.AKey != "session" {
 		akey = mint.Key{EType: c.TktEType, Value: c.K("unrelated-session", c.TktEType)}
 	}
-	a := &mint.AuthSpec{CRealm: c.ACRealm, CName: cn(c.ACName), CNameType: 1, CTime: at(c.CTimeOff),
+	ctime := at(c.CTimeOff)
+	if c.ACName == "" {
+		// an empty client name cannot carry the uniqueness suffix: keep the process-wide replay cache from
+		// coupling such cases by giving each a client time (microsecond resolution) no other case has used
+		ctime = uniqueMicro(ctime)
+	}
+	a := &mint.AuthSpec{CRealm: c.ACRealm, CName: cn(c.ACName), CNameType: 1, CTime: ctime,
 		Key: akey, Usage: c.AUsage, Conf: kgen.DetBytes(c.Seed, "c01/aconf", 16), MutateCipher: mutator(c.AMut)}
 	m := &Minted{Now: now, EndTime: t.EndTime, CName: t.CName, CRealm: c.CRealm, Session: sess}
 	if c.SubKey {
